@@ -25,9 +25,9 @@ META = {
 THEOREMS = ['Scalibr.Overlay.C04_view_partial', 'Scalibr.Overlay.C04_loader_views', 'Scalibr.Overlay.C04_loader_partial',
             'Scalibr.Overlay.C04_image_partial', 'Scalibr.Overlay.loadImage_chains',
             'Scalibr.Overlay.C04_view_nowhiteout_partial', 'Scalibr.Overlay.C04_readdir_partial', 'Scalibr.Overlay.C04_walk_partial',
-            'Scalibr.Overlay.C04_required_files_partial', 'Scalibr.Overlay.C04_required_subset', 'Scalibr.Overlay.C04_required_fails_dirs',
+            'Scalibr.Overlay.C04_required', 'Scalibr.Overlay.C04_required_get', 'Scalibr.Overlay.C04_required_subset',
             'Scalibr.Overlay.C04_view_fails_recreate', 'Scalibr.Overlay.C04_view_fails_opaque', 'Scalibr.Overlay.C04_view_fails_dropped_entry',
-            'Scalibr.Overlay.C04_view_fails_dropped_entry_mode', 'Scalibr.Overlay.C04_view_fails_wh_recreate', 'Scalibr.Overlay.C04_view_fails_implicit_dir',
+            'Scalibr.Overlay.C04_view_fails_wh_recreate', 'Scalibr.Overlay.C04_view_fails_implicit_dir',
             'Scalibr.Overlay.C04_witness_classes', 'Scalibr.Overlay.view_gen', 'Scalibr.Overlay.revLayer_apply', 'Scalibr.Overlay.loadCore_eq_viewOf',
             'Scalibr.Overlay.C10_layer_bytes', 'Scalibr.Overlay.C10_layer_bytes_loader', 'Scalibr.Overlay.C10_layer_bytes_final',
             'Scalibr.Overlay.C10_layer_bytes_boundary', 'Scalibr.Overlay.C10_disk_bytes', 'Scalibr.Overlay.C10_disk_bytes_load',
@@ -60,26 +60,10 @@ def _strip_content_unused(items):
 
 def _view_diff(j, nv, req, iw, il, sw, sl):
     """(None, None) when the implementation's view j agrees with the specification's, else (description, kind):
-    kind 'pruned-dirs'   = under a requirer the final view only lacks directories the specification keeps,
-    kind 'backing-files' = under a requirer a file of a non-final view is listed but its content cannot be read,
     kind None            = any other difference"""
     iw, il, sw, sl = _items(iw), _items(il), _items(sw), _items(sl)
     if iw == sw and il == sl:
         return None, None
-    if req != 'A':
-        if j + 1 == nv:
-            missing = set(sw) - set(iw)
-            extra = set(iw) - set(sw)
-            look_ok = len(il) == len(sl) and all(a == b or (a == '-' and b.split(':')[0] == 'd') for a, b in zip(il, sl))
-            if not extra and look_ok and all(x.split(':')[1] == 'd' for x in missing):
-                return 'directories emptied by the removal of non-required files are gone: ' + ','.join(sorted(missing)[:4]), 'pruned-dirs'
-        else:
-            def same_but_unreadable(a, b):
-                fa, fb = a.split(':'), b.split(':')
-                return a == b or (len(fa) == len(fb) and fa[:-1] == fb[:-1] and fa[-4] == 'f' and fa[-1] == 'readerr')
-            if len(iw) == len(sw) and len(il) == len(sl) and all(same_but_unreadable(a, b) for a, b in zip(iw + il, sw + sl)):
-                bad = [a for a, b in zip(iw, sw) if a != b]
-                return 'files listed in a non-final view cannot be read (backing file deleted): ' + ','.join(bad[:4]), 'backing-files'
     if iw != sw:
         d = sorted(set(iw) ^ set(sw))
         return 'walk differs: ' + ','.join(d[:4]), None
@@ -128,10 +112,6 @@ def _judge1(case, fi, fm):
         d, kind = _view_diff(j, nv, req, iw[j], il[j], sw[j], sl[j])
         if d is None:
             continue
-        if kind == 'pruned-dirs':
-            return 'final view under a requirer: ' + d, 'C04/requirer-prunes-emptied-directories'
-        if kind == 'backing-files':
-            return 'view %d under a requirer: %s' % (j, d), 'C04/requirer-deletes-backing-files'
         if wf[j] == '1':
             return 'view %d is not the OCI overlay of layers 0..%d although H holds: %s' % (j, j, d), None
         failing = [c for c in cls[j].split(',') if c != '-']
@@ -179,31 +159,14 @@ def _squash_verdict(case, fi, wf):
     names = [[(e[0], binascii.unhexlify(e[1]).decode('latin1') if e[1] != '-' else '') for e in l] for l in layers]
     if any(n.startswith('/') for l in names for _, n in l):
         return text + ' (entry names written with a leading "/")', 'C04/squash-absolute-names'
-    under, nondir, explicit = [], [], []
     odd = False
     for l in names:
-        u, nd, ex = set(), set(), set()
         for typ, n in l:
             c = _clean(n)
             if c is None:
                 odd = True             # "", ".", "..", "../x": skipped by the loader, "." is a tombstone of everything for mutate.Extract
-                continue
-            base = c[-1]
-            if base.startswith('.wh.'):
-                if base in ('.wh.', '.wh..', '.wh...') or typ == 'd':
-                    odd = True
-                c = c[:-1] + [base[4:]]
-            else:
-                ex.add('/'.join(c))
-                if typ != 'd':
-                    nd.add('/'.join(c))
-            for k in range(1, len(c)):
-                u.add('/'.join(c[:k]))
-        under.append(u); nondir.append(nd); explicit.append(ex)
-    for k in range(len(names)):
-        for k0 in range(k):
-            if any(p in under[k] and p not in explicit[k] for p in nondir[k0]):
-                return text + ' (a lower layer\'s file where an upper layer only implies a directory)', 'C04/squash-file-under-implied-directory'
+            elif c[-1] in ('.wh.', '.wh..', '.wh...') or (typ == 'd' and c[-1].startswith('.wh.')):
+                odd = True
     if odd:
         return None, None              # whiteouts of "", "." or "..", directories named .wh.x: no claim
     return text, None
